@@ -190,7 +190,15 @@ func (s *Sim) BuildWorld() {
 			c.Devs = append(c.Devs, s.newAccount(10000))
 		}
 		s.Cons = append(s.Cons, c)
-		s.doBuy(c, c, vrandPick(s, s.Plans), 1+s.R.Intn(3), s.R.Intn(4) == 0, false)
+		if r := s.doBuy(c, c, vrandPick(s, s.Plans), 1+s.R.Intn(3), s.R.Intn(4) == 0, false); r.OK() {
+			// the first developer key joins the admin project (the second stays unregistered: a stranger's key)
+			if projs := s.projectsOf(c); len(projs) > 0 {
+				msg := &projectstypes.MsgAddKeys{Creator: c.Addr, Project: projs[0], ProjectKeys: []projectstypes.ProjectKey{projectstypes.ProjectDeveloperKey(c.Devs[0].Addr.String())}}
+				s.Tx("addkeys", "world: first developer key of "+short(c.Addr), msg, func(ctx context.Context) (any, error) {
+					return s.TS.Servers.ProjectServer.AddKeys(ctx, msg)
+				})
+			}
+		}
 	}
 	for i := 0; i < max(p.Delegators, 1); i++ {
 		s.Dels = append(s.Dels, s.newAccount(bigBalance))
